@@ -90,7 +90,12 @@ pub fn binary_case(env: &Env, tape: &[u8], st: &mut Stats) -> Vec<Violation> {
     let mut t = Tape::new(tape);
     let mut skipped = 0;
     let spec = tree::gen_tree(&mut t, &tree::TreeCfg { inert: 30, ..Default::default() }, &mut skipped);
-    check_binary_spec(env, &spec, &mut t, st)
+    // the creation and configuration orders come from a tape of their own, derived from the whole
+    // input: the tree generator may have used the input up, and an exhausted tape only yields
+    // identity permutations
+    let bytes: Vec<u8> = (0..96u64).map(|i| (fnv(&(tape, i)) >> 17) as u8).collect();
+    let mut t2 = Tape::new(&bytes);
+    check_binary_spec(env, &spec, &mut t2, st)
 }
 
 fn check_binary_spec(env: &Env, spec: &[Entry], t: &mut Tape, st: &mut Stats) -> Vec<Violation> {
@@ -125,6 +130,14 @@ fn check_binary_spec(env: &Env, spec: &[Entry], t: &mut Tape, st: &mut Stats) ->
         st.count("trees_run_under_different_listing_orders");
         if files.len() >= 2 {
             st.nontrivial(&format!("{:?}", case));
+        }
+    }
+    for r in &reports[1..] {
+        if *r != reports[0] {
+            let pa = crate::refmodel::report::parse_report(&String::from_utf8_lossy(&reports[0]));
+            let pb = crate::refmodel::report::parse_report(&String::from_utf8_lossy(r));
+            let sig = if pa.sections != pb.sections { "binary:section-order-differs-between-runs" } else { "binary:entries-differ-between-runs" };
+            return vec![Violation::new("c13-binary", sig, "two runs over the same directory content produced different reports", case)];
         }
     }
     // configuration order: the same selection (possibly naming a pattern twice) in two orders
@@ -171,14 +184,6 @@ fn check_binary_spec(env: &Env, spec: &[Entry], t: &mut Tape, st: &mut Stats) ->
                     )];
                 }
             }
-        }
-    }
-    for r in &reports[1..] {
-        if *r != reports[0] {
-            let pa = crate::refmodel::report::parse_report(&String::from_utf8_lossy(&reports[0]));
-            let pb = crate::refmodel::report::parse_report(&String::from_utf8_lossy(r));
-            let sig = if pa.sections != pb.sections { "binary:section-order-differs-between-runs" } else { "binary:entries-differ-between-runs" };
-            return vec![Violation::new("c13-binary", sig, "two runs over the same directory content produced different reports", case)];
         }
     }
     vec![]
@@ -230,14 +235,21 @@ pub fn run(env: &Env) -> i32 {
     } else {
         st.harness_errors.push("solstat binary not built".into());
     }
+    // creation order only changes the listing order on file systems that list in (reverse) creation
+    // order, such as tmpfs; elsewhere that floor cannot be met and is not demanded
+    let on_tmpfs = tree::scratch_base() == std::path::Path::new("/dev/shm");
+    let listing_floor = if on_tmpfs { 5 } else { 0 };
     let meta = Meta {
         rule: "library: (findings set, 6 permutation seeds) -> 6 renderings from fresh HashMaps with permuted insertion order and permuted file vectors, all must be byte-identical; binary: the same tree content created in 4 different orders (different listing orders on tmpfs) and run in 4 separate processes, reports must be byte-identical; non-trivial = >= 2 patterns in the category or >= 2 files under a pattern (library), >= 2 eligible files and >= 2 distinct observed listing orders (binary)".into(),
-        assumptions: vec!["per-process hash seeds are sampled (each run of the binary is a fresh process; each library rendering uses a fresh RandomState)".into()],
+        assumptions: vec![
+            "per-process hash seeds are sampled (each run of the binary is a fresh process; each library rendering uses a fresh RandomState)".into(),
+            format!("scratch trees on tmpfs (/dev/shm): {on_tmpfs}; only there does the creation order change the listing order, which is what the binary-level discovery-order cases rely on"),
+        ],
         extra: json!({}),
         floors: vec![
             ("sets with >= 2 patterns".into(), st.counters.get("sets_with_two_or_more_patterns").copied().unwrap_or(0), 500),
             ("sets with >= 2 files under a pattern".into(), st.counters.get("sets_with_two_or_more_files_under_a_pattern").copied().unwrap_or(0), 500),
-            ("trees run under different listing orders".into(), st.counters.get("trees_run_under_different_listing_orders").copied().unwrap_or(0), 5),
+            ("trees run under different listing orders".into(), st.counters.get("trees_run_under_different_listing_orders").copied().unwrap_or(0), listing_floor),
             ("trees run under different configuration orders".into(), st.counters.get("trees_run_under_different_configuration_orders").copied().unwrap_or(0), 5),
         ],
     };
